@@ -56,6 +56,17 @@ add('C05', 'proof', 'Lean 4 theorems (canonical-form invariant) about an executa
     TB + 'Modelled rather than verified: app.merge. wall_time is summed in exact rationals in the model; the harness uses '
     'dyadic wall times so the float sums are exact.')
 
+add('C18', 'proof', 'Lean 4 theorems about an executable model of the JSON-lines reader state machine + generated-file call-sequence correspondence',
+    'Serving exactly the recorded errors in file order from the start offset (never repeating, inventing or skipping), '
+    'header exposure, EOF finality, refusal of a wrong probability / qubit count, rejection of malformed files '
+    '(missing / repeated keys, invalid or shadowing attribute names, bad start, non-record or invalid JSON reached by '
+    'generate) and irrelevance of comment / blank lines are Lean theorems for every file layout, header grouping and '
+    'call sequence; tied to FileErrorModel by generated files driven through random call sequences past EOF with the '
+    'outcome sequence compared exactly, plus the repository fixture files.',
+    TB + 'Modelled rather than verified: models/generic/_fileerrormodel.py (FileErrorModel, _JSONLines), paulitools.unpack. '
+    'json.loads is external (each line carries its token, supplied by the harness from the real json.loads); Unicode '
+    'whitespace is outside the generator (ASCII).')
+
 NOT_YET = {}
 
 
